@@ -44,6 +44,7 @@ type hist struct {
 	br  protocol.ChainBridge
 	out *Out
 	rng *rand.Rand
+	rl  *relay // relay.go: a second node that follows the producer and is handed relayed contract receives
 }
 
 // variant: deliver v (a copy of the accepted block orig.Block with some field altered) through the path
@@ -490,6 +491,8 @@ func nodeHistory(rng *rand.Rand, out *Out) {
 	nd := NewNode()
 	defer nd.Stop()
 	h := &hist{nd: nd, out: out, rng: rng, br: protocol.NewChainBridge(nd.Ch, nd.Cs, verifier.NewVerifier(nd.Ch, nd.Cs), nd.Sv)}
+	h.rl = newRelay(h)
+	defer h.rl.close()
 	users := []*wallet.KeyPair{g.User1, g.User2, g.User3}
 	pendingRecv := []*nom.AccountBlock{}
 	didHolder := false
@@ -497,9 +500,13 @@ func nodeHistory(rng *rand.Rand, out *Out) {
 	steps := 8 + rng.Intn(6)
 	for s := 0; s < steps; s++ {
 		u := users[rng.Intn(len(users))]
+		// sends of contracts to users that are confirmed by now (relay.go collects them from every pooled contract receive)
+		pendingRecv = append(pendingRecv, h.rl.takeReady()...)
 		var tmpl *nom.AccountBlock
-		kind := rng.Intn(9)
+		kind := rng.Intn(14)
 		switch kind {
+		case 9, 10, 11, 12, 13: // more calls that make a contract emit descendants (relay.go): token issue / mint, swap retrieve (two descendants), pillar deposit / withdraw, failing pillar registration
+			tmpl = h.rl.extraCall(rng, kind-9, u, users)
 		case 0, 1: // plain transfer with data
 			tmpl = &nom.AccountBlock{ToAddress: users[rng.Intn(len(users))].Address, TokenStandard: types.ZnnTokenStandard,
 				Amount: big.NewInt(int64(rng.Intn(5)) * g.Zexp), Data: rVar(rng)}
@@ -539,10 +546,10 @@ func nodeHistory(rng *rand.Rand, out *Out) {
 			out.Count("receive:ok")
 			h.userVariants(tx)
 			nd.Insert(tx)
-			nd.Momentum()
+			h.step()
 			continue
 		}
-		if kind >= 2 && kind <= 6 {
+		if kind >= 2 && kind != 7 && kind != 8 {
 			h.abiVariants(u, &nom.AccountBlock{BlockType: nom.BlockTypeUserSend, Address: u.Address, ToAddress: tmpl.ToAddress,
 				TokenStandard: tmpl.TokenStandard, Amount: tmpl.Amount, Data: tmpl.Data}, rng.Intn(3))
 		}
@@ -554,9 +561,10 @@ func nodeHistory(rng *rand.Rand, out *Out) {
 		if !didHolder && kind <= 1 && rng.Intn(2) == 0 {
 			didHolder = true
 			h.variantHolder(tx)
+			h.rl.scan()
 		} else {
 			nd.Insert(tx)
-			nd.Momentum()
+			h.step()
 		}
 		if !types.IsEmbeddedAddress(tx.Block.ToAddress) {
 			pendingRecv = append(pendingRecv, tx.Block)
@@ -575,14 +583,9 @@ func nodeHistory(rng *rand.Rand, out *Out) {
 		}
 		out.Count("contract-receive:descendants:" + string(rune('0'+len(fb.DescendantBlocks))))
 		h.contractVariants(orig)
-		for _, d := range fb.DescendantBlocks {
-			if !types.IsEmbeddedAddress(d.ToAddress) {
-				pendingRecv = append(pendingRecv, d)
-			}
-		}
-		nd.Momentum()
+		h.step()
 	}
-	nd.Momentum()
+	h.step()
 	// every block and momentum of this history through the codecs
 	st := nd.Ch.GetFrontierMomentumStore()
 	top := nd.FrontierHeight()
